@@ -158,11 +158,13 @@ func c08ExecInner(scAny any, c *simcheck.Ctx) *simcheck.Violation {
 		c.St.Count("cases_under_constant_garbage_collection", 1)
 	}
 	step := 0
+	reloadNext := false // the next build reloads the project of the previous one (watch mode)
 	run := func(what string) (*procResult, *simcheck.Violation) {
 		step++
 		pc := h.pc
 		pc.WatchdogS = 30
-		res := h.build(step, &opSpec{Op: "build", Label: "//:all"}, pc, nil)
+		res := h.build(step, &opSpec{Op: "build", Label: "//:all", Reload: reloadNext}, pc, nil)
+		reloadNext = false
 		if res.Sim.Stuck {
 			// a load and build of a handful of targets takes milliseconds; half a minute of
 			// real time with the baton never coming back means a computation that does not end
@@ -297,6 +299,10 @@ func c08ExecInner(scAny any, c *simcheck.Ctx) *simcheck.Violation {
 			return simcheck.V(simcheck.EngineError, "edit: %v", err)
 		}
 		h.w.events = nil
+		if op.Op == "bump-req" && c.Tapes.Get("reload").Intn(2) == 0 {
+			reloadNext = true // dawn.toml changed under watch mode: Reload, then build
+			c.St.Count("requirement_moves_under_reload", 1)
+		}
 		if _, v := run(fmt.Sprintf("build after editing %s", op.Item)); v != nil {
 			if v.Class == "skip" {
 				return nil
